@@ -301,6 +301,7 @@ func LoadOverlay(repo string, overlay map[string][]byte, whole bool) (*Prog, err
 
 func (p *Prog) inherit(from *Prog) *Prog {
 	p.Renamed = from.Renamed
+	p.IndexFieldAliases()
 	return p
 }
 
@@ -1315,6 +1316,7 @@ func (p *Prog) ResolveFieldRenames(base map[string][][2]string) map[string]strin
 	for k, v := range out {
 		fieldAlias[k] = v
 	}
+	p.IndexFieldAliases()
 	return out
 }
 
@@ -1329,4 +1331,44 @@ func LoadBaselineFields(path string) (map[string][][2]string, error) {
 		return nil, err
 	}
 	return m, nil
+}
+
+// FieldDisplayName is the name under which the analysis knows field f of owner: its name on the
+// audited tree when the field was renamed since.
+func FieldDisplayName(owner *types.Named, f *types.Var) string {
+	if owner != nil && owner.Obj().Pkg() != nil {
+		if old, ok := fieldAlias[owner.Obj().Pkg().Path()+"."+owner.Obj().Name()+"."+f.Name()]; ok {
+			return old
+		}
+	}
+	return f.Name()
+}
+
+// fieldObjAlias: field object (of any loaded program) -> old name, for text-based keys.
+var fieldObjAlias = map[*types.Var]string{}
+
+// IndexFieldAliases records the field objects of p that carry an alias (call after
+// ResolveFieldRenames, and again for every program loaded from an overlay).
+func (p *Prog) IndexFieldAliases() {
+	if len(fieldAlias) == 0 {
+		return
+	}
+	for _, pk := range p.Pkgs {
+		sc := pk.Types.Scope()
+		for _, n := range sc.Names() {
+			tn, ok := sc.Lookup(n).(*types.TypeName)
+			if !ok {
+				continue
+			}
+			st, ok := tn.Type().Underlying().(*types.Struct)
+			if !ok {
+				continue
+			}
+			for i := 0; i < st.NumFields(); i++ {
+				if old, ok := fieldAlias[pk.PkgPath+"."+n+"."+st.Field(i).Name()]; ok {
+					fieldObjAlias[st.Field(i)] = old
+				}
+			}
+		}
+	}
 }
